@@ -23,7 +23,7 @@ def knobs_small():
 
 def knobs_models():
     # several models on one machine, some of them falsy (always, or during every other call of theirs)
-    return nested.NKnobs(max_models=3, p_falsy=0.6, max_states=9, max_history=12, p_suspend=0.2)
+    return nested.NKnobs(max_models=3, p_falsy=0.6, max_states=9, max_history=12, p_suspend=0.2, p_mops=0.6)
 
 
 def knobs_enum():
@@ -70,7 +70,7 @@ class C02(nestedcheck.NestedCheck):
         NStream('5-states', enum=layer(5, 4), thorough=(64, 420), others=1, tiers=('thorough',)),
         NStream('6-states', enum=layer(6, 100), thorough=(64, 210), others=1, tiers=('thorough',)),
     )
-    theorems = ('TM.C02_inv_of_check', 'TM.C02_init', 'TM.C02_step_partial', 'TM.C02_step_clean', 'TM.C02_regression_stale_source', 'TM.C02_step_counterexample_run', 'TM.C02_step_counterexample', 'TM.C02_history', 'TM.C02_history_queued', 'TM.C02_step_exclusive', 'TM.C02_step_regions', 'TM.C02_step_global', 'TM.C02_history_regions', 'TM.C02_resolve_order', 'TM.C02_exit_children_first', 'TM.C02_enter_parents_first', 'TM.C02_entered_part_closed', 'TM.C02_new_configuration', 'TM.C02_state_value_roundtrip', 'TM.C02_monitor_accepts_model', 'TM.C02_nesting_model', 'TM.C02_models_frame', 'TM.C02_models_history')
+    theorems = ('TM.C02_inv_of_check', 'TM.C02_init', 'TM.C02_step_partial', 'TM.C02_step_clean', 'TM.C02_regression_stale_source', 'TM.C02_step_counterexample_run', 'TM.C02_step_counterexample', 'TM.C02_history', 'TM.C02_history_queued', 'TM.C02_step_exclusive', 'TM.C02_step_regions', 'TM.C02_step_global', 'TM.C02_history_regions', 'TM.C02_resolve_order', 'TM.C02_exit_children_first', 'TM.C02_enter_parents_first', 'TM.C02_entered_part_closed', 'TM.C02_new_configuration', 'TM.C02_state_value_roundtrip', 'TM.C02_monitor_accepts_model', 'TM.C02_nesting_model', 'TM.C02_models_frame', 'TM.C02_models_history', 'TM.C02_add_models_frame', 'TM.C02_add_models_new', 'TM.C02_add_models_unnamed', 'TM.C02_remove_models_frame')
     rule = ('a case = (state tree, transition set, script, history); non-trivial iff at least one transition with a '
             'state change executed on HierarchicalMachine; distinct by the hash of the encoded case')
     trusted = (
